@@ -16,7 +16,7 @@ use crate::util::J;
 
 pub struct C09;
 
-const ITEMS: [&str; 12] = ["a", "c", "a-c", "A-C", "\\d", "\\s", "\\D", "\\-", "\\]", "^", " ", "\u{e9}"];
+const ITEMS: [&str; 14] = ["a", "c", "a-c", "A-C", "\\d", "\\s", "\\D", "\\-", "\\]", "^", " ", "\u{e9}", "\\p{Lu}", "\\P{Lu}"];
 const HYPH: [(&str, &str); 3] = [("", ""), ("-", ""), ("", "-")];
 
 /// sequences of 1..=n items, as index -> text
@@ -131,7 +131,7 @@ fn probes() -> Vec<char> {
     for c in ['a', 'c', 'A', 'C', '0', '9', ' ', '\t', '\n', '\r', '-', ']', '^', '\u{e9}', '\u{c9}', '\u{660}', '\u{669}', '\u{1d7ce}', '\u{1d7ff}'] {
         add(c as u32);
     }
-    for c in [0u32, 0xD7FF, 0xE000, 0xFFFD, 0x10000, 0x10FFFF, 0x4E2D] {
+    for c in [0u32, 0x7E, 0x7F, 0x80, 0xFF, 0x100, 0xD7FF, 0xE000, 0xFFFD, 0x10000, 0x10FFFF, 0x4E2D, 0x3A9, 0x3C9] {
         if let Some(ch) = char::from_u32(c) {
             if !v.contains(&ch) {
                 v.push(ch);
